@@ -108,36 +108,58 @@ fn dinstrstr(i: &VDecInstr) -> String {
     }
 }
 
+/// FNV-1a (32 bit) over the table contents: per entry len(name), name, len(value), value
+fn digest(s: &Snapshot) -> String {
+    let mut h: u32 = 2166136261;
+    let mut step = |b: u8| {
+        h = (h ^ b as u32).wrapping_mul(16777619);
+    };
+    for (n, v) in &s.fields {
+        step(n.len() as u8);
+        n.iter().for_each(|b| step(*b));
+        step(v.len() as u8);
+        v.iter().for_each(|b| step(*b));
+    }
+    format!("h{:08x}", h)
+}
+
+fn pairs(l: &[(usize, usize)]) -> String {
+    joinor("+", l.iter().map(|(r, c)| format!("{}*{}", r, c)).collect())
+}
+
 fn estate(s: &Snapshot) -> String {
-    let nblocks: usize = s.track_blocks.iter().map(|(_, q)| q.len()).sum();
+    // stream ids compare as decimal strings on the model side
+    let mut blocks: Vec<(String, usize)> = s
+        .track_blocks
+        .iter()
+        .map(|(sid, q)| (sid.to_string(), q.len()))
+        .collect();
+    blocks.sort();
     format!(
-        "t{}.{}.{}.{}.{}/{}/{}.{}/{}",
+        "t{}.{}.{}.{}.{}.{}/{}/{}.{}.{}/{}",
         s.inserted,
         s.dropped,
         s.curr_size,
         s.max_size,
         s.fields.len(),
-        joinor(
-            "+",
-            s.track_map
-                .iter()
-                .map(|(r, c)| format!("{}*{}", r, c))
-                .collect()
-        ),
+        digest(s),
+        pairs(&s.track_map),
         s.blocked_count,
         s.largest_known_received,
-        nblocks
+        pairs(&s.blocked_streams),
+        joinor("+", blocks.iter().map(|(sid, l)| format!("{}*{}", sid, l)).collect())
     )
 }
 
 fn dstate(s: &Snapshot) -> String {
     format!(
-        "d{}.{}.{}.{}.{}",
+        "d{}.{}.{}.{}.{}.{}",
         s.inserted,
         s.dropped,
         s.curr_size,
         s.max_size,
-        s.fields.len()
+        s.fields.len(),
+        digest(s)
     )
 }
 
